@@ -178,7 +178,11 @@ def _allof_real(par: list[str], own: str):
     doc = gen.mkdoc(schemas={
         "P": {"type": "object", "properties": {n: {"type": "string"} for n in par}},
         "C": {"allOf": [{"$ref": "#/components/schemas/P"},
-                        {"type": "object", "properties": {own: {"type": "string", "format": "date"}}}]}})
+                        {"type": "object", "properties": {own: {"type": "string", "format": "date"}}}]},
+        # pure compositions of two parents (no member of their own), in both orders
+        "Q": {"type": "object", "properties": {own: {"type": "string", "format": "date"}}},
+        "C2": {"allOf": [{"$ref": "#/components/schemas/P"}, {"$ref": "#/components/schemas/Q"}]},
+        "C3": {"allOf": [{"$ref": "#/components/schemas/Q"}, {"$ref": "#/components/schemas/P"}]}})
     data, exc = _parse(doc)
     if exc or _is_err(data):
         return None, bool(data is not None), exc, doc
@@ -245,7 +249,7 @@ def scope(rep, mode: str, sigma: list[str], maxlen: int, size: int, d, emit_all:
             if exc is not None or out is None:
                 _scope_verdict(rep, "attr-scope/allOf", [par, own], None, diag, exc, {"doc": doc})
             else:
-                for cls in ("P", "C"):
+                for cls in ("P", "C", "C2", "C3"):
                     if cls in out:
                         _scope_verdict(rep, "attr-scope/allOf", [par, own], list(out[cls].values()), False, None,
                                        {"doc": doc, "model": cls})
@@ -336,6 +340,43 @@ def scope(rep, mode: str, sigma: list[str], maxlen: int, size: int, d, emit_all:
         rep.sample({"mode": mode, "case": r.get("i") or [r.get("par"), r.get("own")], "model_ok": r["ok"]})
     if len(res.printed) < 20 and not res.violated and emit_all:
         raise tlc.TlcFailure(f"{mode} mode emitted too few cases")
+
+
+def reserved_parameters(rep) -> None:
+    """Names.tla's ReservedParams: a parameter whose name is one the generated function uses itself (client, url, body, and the
+    headers / params / cookies dictionaries) must be renamed - in every location, with and without a request body, whether or not the
+    path item declares parameters too (the conflict check runs at different moments in those cases)."""
+    for name in ("client", "url", "headers", "params", "cookies", "body", "Body", "HEADERS"):
+        for loc in ("query", "header", "cookie", "path"):
+            for has_body in (False, True):
+                for pathitem in (False, True):
+                    path = "/x/{%s}" % name if loc == "path" else "/x"
+                    op = {"operationId": "g", "parameters": [{"name": name, "in": loc, "required": True, "schema": {"type": "string"}}], "responses": {"200": {"description": "d"}}}
+                    if has_body:
+                        op["requestBody"] = {"content": {"application/json": {"schema": {"type": "object", "properties": {"a": {"type": "string"}}}}}}
+                    item = {"post": op}
+                    if pathitem:
+                        item["parameters"] = [{"name": "other", "in": "query", "schema": {"type": "string"}}]
+                    doc = gen.mkdoc(paths={path: item})
+                    data, exc = _parse(doc)
+                    rep.count(1, ("reserved-param", name, loc, has_body, pathitem))
+                    if exc or _is_err(data):
+                        _scope_verdict(rep, "param-scope/reserved", [name, loc], None, data is not None, exc, {"doc": doc})
+                        continue
+                    col = data.endpoint_collections_by_tag.get("default")
+                    if not col or not col.endpoints:
+                        _scope_verdict(rep, "param-scope/reserved", [name, loc], None, bool(col and col.parse_errors), None, {"doc": doc})
+                        continue
+                    e = col.endpoints[0]
+                    py = [str(p.python_name) for _, p in e.iter_all_parameters()]
+                    fixed = ["client"] + (["body"] if has_body else [])
+                    taken = set(fixed) | {"headers", "params", "cookies", "url"}
+                    clash = [n for n in py if n in taken]
+                    if clash and not col.parse_errors:
+                        rep.violate(f"C09/param-scope/reserved/{name.lower()}/{loc}/body={has_body}/pathitem={pathitem}",
+                                    f"parameter {name!r} in {loc} keeps the name {clash} although the generated function uses it itself "
+                                    f"(arguments {fixed}, locals headers/params/cookies)", doc=doc, names=py)
+                    _scope_verdict(rep, "param-scope/reserved", [name, loc], py + fixed, bool(col.parse_errors), None, {"doc": doc})
 
 
 # ------------------------------------------------------------------ every code point, three positions
@@ -437,6 +478,7 @@ def run(rep) -> None:
         for mode, sigma, maxlen, size, emit_all in jobs:
             scope(rep, mode, sigma, maxlen, size, d, emit_all)
         sweep(rep)
+        reserved_parameters(rep)
         traces(rep, 1500 if quick else 12000, d)
     finally:
         rmtree(d)
